@@ -622,11 +622,32 @@ func (c *Counter) Peek() int { return c.v }
 // Stmt is the statement-level scheduling point inserted into package state.
 func Stmt(site string) {
 	s := S
-	if s == nil || !s.stmtOn || s.aborting || s.cur == nil {
+	if s == nil || !(s.stmtOn || s.stmtAllOn) || s.aborting || s.cur == nil {
 		return
 	}
 	s.point(&Op{Kind: "stmt", Site: site})
 	s.event(0x500^HashString(site), nil, true)
+}
+
+// StmtAll is inserted before every other statement of the packages instrumented with StmtAllPkgs (statements
+// that touch no field of an instrumented struct): a scheduling point only while StmtAllMode is on. With it a run
+// explores interleavings of plain statements, e.g. inside the assembly of a line in a buffer that is reached
+// through a local pointer.
+func StmtAll(site string) {
+	s := S
+	if s == nil || !s.stmtAllOn || s.aborting || s.cur == nil {
+		return
+	}
+	s.point(&Op{Kind: "stmt", Site: site})
+	s.event(0x501^HashString(site), nil, true)
+}
+
+// StmtAllMode switches every-statement interleaving on or off for the calling run (implies nothing about
+// StmtMode, which stays as it is).
+func StmtAllMode(on bool) {
+	if s := S; s != nil {
+		s.stmtAllOn = on
+	}
 }
 
 // StmtMode switches statement-granularity interleaving (and the race monitor) on or off for the calling run.
